@@ -14998,8 +14998,9 @@ func (p *parser) visitExprInOut(expr js_ast.Expr, in exprIn) (js_ast.Expr, exprO
 				// generate a temporary variable in case this async method contains a
 				// "super" property reference. If that happens, the "super" expression
 				// must be lowered which will need a reference to this object literal.
-				if property.Kind == js_ast.PropertyMethod && p.options.unsupportedJSFeatures.Has(compat.AsyncAwait) {
-					if fn, ok := property.ValueOrNil.Data.(*js_ast.EFunction); ok && fn.Fn.IsAsync {
+				if property.Kind == js_ast.PropertyMethod {
+					if fn, ok := property.ValueOrNil.Data.(*js_ast.EFunction); ok && fn.Fn.IsAsync && (p.options.unsupportedJSFeatures.Has(compat.AsyncAwait) ||
+						(fn.Fn.IsGenerator && p.options.unsupportedJSFeatures.Has(compat.AsyncGenerator))) {
 						if innerClassNameRef == ast.InvalidRef {
 							innerClassNameRef = p.generateTempRef(tempRefNeedsDeclareMayBeCapturedInsideLoop, "")
 						}
@@ -17256,7 +17257,8 @@ func (p *parser) visitFn(fn *js_ast.Fn, scopeLoc logger.Loc, opts visitFnOpts) {
 		isAsync:                        fn.IsAsync,
 		isGenerator:                    fn.IsGenerator,
 		isDerivedClassCtor:             opts.isDerivedClassCtor,
-		shouldLowerSuperPropertyAccess: (fn.IsAsync && p.options.unsupportedJSFeatures.Has(compat.AsyncAwait)) || opts.isLoweredPrivateMethod,
+		shouldLowerSuperPropertyAccess: (fn.IsAsync && (p.options.unsupportedJSFeatures.Has(compat.AsyncAwait) ||
+			(fn.IsGenerator && p.options.unsupportedJSFeatures.Has(compat.AsyncGenerator)))) || opts.isLoweredPrivateMethod,
 	}
 	p.fnOnlyDataVisit = fnOnlyDataVisit{
 		isThisNested:       true,
